@@ -115,12 +115,14 @@ Definition count_fetch (fr : fetch_result) (c : counters) : counters :=
   | _ => c
   end.
 
-(* cfg_fix_presence / cfg_fix_nopeers are false for the code as it is; true models the
-   repairs proposed in fixes/C25_*.patch *)
+(* cfg_fix_presence = cfg_fix_nopeers = true is the CURRENT code: presence is judged on the
+   final path only (repo commit b7c1b90) and a pull that runs out of attempts with no candidate
+   peers gives up as failed (commit ca914ab).  false models the code before those commits. *)
 Record config := { cfg_max_attempts : nat; cfg_fix_presence : bool; cfg_fix_nopeers : bool }.
 
-(* the pre-pull check of processEntry: StatFile(path) == entry.SizeBytes.  StatFile answers
-   with the size of the final file or, when that is absent, of the .part staging file. *)
+(* the pre-pull check of processEntry.  Current code: Exists(path) (final path only), then
+   StatFile(path) == entry.SizeBytes.  Old variant: StatFile alone, which answers with the size
+   of the final file or, when that is absent, of the .part staging file. *)
 Definition precheck (cfg : config) (f : fs) (e : entry) : bool :=
   if cfg_fix_presence cfg
   then match fs_get f (e_final e) with Some c => blen c =? e_size e | None => false end
